@@ -37,7 +37,7 @@ func getArrayPrototype() *Value {
 			"push": NewCell(Value{
 				Tag: ValueNativeFn,
 				NativeFn: func(e *Evaluator, v []*Value, this *Value) (*Value, error) {
-					if this == nil {
+					if this == nil || this.Tag != ValueArray {
 						return nil, nil
 					}
 					if err := checkArgCount(v, 1); err != nil {
@@ -51,7 +51,7 @@ func getArrayPrototype() *Value {
 			"pop": NewCell(Value{
 				Tag: ValueNativeFn,
 				NativeFn: func(e *Evaluator, v []*Value, this *Value) (*Value, error) {
-					if this == nil {
+					if this == nil || this.Tag != ValueArray {
 						return nil, nil
 					}
 					if err := checkArgCount(v, 0); err != nil {
@@ -72,7 +72,7 @@ func getArrayPrototype() *Value {
 			"popfirst": NewCell(Value{
 				Tag: ValueNativeFn,
 				NativeFn: func(e *Evaluator, v []*Value, this *Value) (*Value, error) {
-					if this == nil {
+					if this == nil || this.Tag != ValueArray {
 						return nil, nil
 					}
 					if err := checkArgCount(v, 0); err != nil {
@@ -93,7 +93,7 @@ func getArrayPrototype() *Value {
 			"contains": NewCell(Value{
 				Tag: ValueNativeFn,
 				NativeFn: func(e *Evaluator, v []*Value, this *Value) (*Value, error) {
-					if this == nil {
+					if this == nil || this.Tag != ValueArray {
 						return nil, nil
 					}
 					if err := checkArgCount(v, 1); err != nil {
@@ -123,7 +123,7 @@ func getArrayPrototype() *Value {
 			"sort": NewCell(Value{
 				Tag: ValueNativeFn,
 				NativeFn: func(e *Evaluator, v []*Value, this *Value) (*Value, error) {
-					if this == nil {
+					if this == nil || this.Tag != ValueArray {
 						return nil, nil
 					}
 
@@ -187,6 +187,10 @@ func getObjPrototype() *Value {
 			"pluck": NewCell(Value{
 				Tag: ValueNativeFn,
 				NativeFn: func(e *Evaluator, v []*Value, this *Value) (*Value, error) {
+					if this == nil || this.Tag != ValueObj {
+						return nil, nil
+					}
+
 					newObj := NewObject()
 					for _, value := range v {
 						if value.Tag != ValueNum && value.Tag != ValueStr {
